@@ -51,7 +51,8 @@ WkOf(st) ==
   LET ws == st.wk
   IN [w \in {ws[i].id : i \in DOMAIN ws} |->
         LET r == CHOOSE r \in SeqSet(ws) : r.id = w
-        IN [running |-> {[t |-> r.running[i].t, inst |-> r.running[i].inst, v |-> r.running[i].v, rq |-> r.running[i].rq]
+        IN [running |-> {[t |-> r.running[i].t, inst |-> r.running[i].inst, v |-> r.running[i].v, rq |-> r.running[i].rq,
+                            alloc |-> r.running[i].alloc]
                            : i \in DOMAIN r.running},
             backlog |-> UNION {{r.backlog[i].tasks[k].t : k \in DOMAIN r.backlog[i].tasks} : i \in DOMAIN r.backlog},
             blocked |-> SeqSet(r.blocked), s2w |-> r.s2w, w2s |-> r.w2s, stopped |-> r.stopped,
@@ -132,6 +133,7 @@ StateProps == <<
   <<"C03_NeverStartedAfterFailedDep", C03_NeverStartedAfterFailedDep>>,
   <<"C03_PropagateAtRest", C03_PropagateAtRest>>, <<"C03_Unaffected", C03_Unaffected>>,
   <<"AUX_DepsCounted", C03_DepsCounted>>,
+  <<"C04_RunningExclusive", C04_RunningExclusive>>, <<"C04_RunningExact", C04_RunningExact>>,
   <<"C05_NoOverbook", C05_NoOverbook>>, <<"C05_PlacedCapable", C05_PlacedCapable>>,
   <<"C05_MnExclusive", C05_MnExclusive>>, <<"C05_MnWorkersIdle", C05_MnWorkersIdle>>,
   <<"C06_OneExecution", C06_OneExecution>>, <<"C06_InstMonotone", C06_InstMonotone>>,
